@@ -37,6 +37,8 @@ def pam_runs(case, j):
             out.append(dict(base, props=ce.to0(case["props"]), warm="pairs"))
         return out
     out = [dict(base, seed=j % 17)]
+    if j % 5 == 2:           # no sweep at all: the state derived from the given medoids is the result
+        out.append(dict(base, sweeps=0, seed=j % 17, form=("function", "estimator")[j % 2]))
     if j % 3 == 0:
         out.append(dict(base, seed=j % 17, warm="assignments"))
     if j % 3 == 1:
